@@ -58,6 +58,13 @@ func c06Build(in *c06In, now time.Time) (c06Req, error) {
 			bh = c06ShaHex("")
 		case "unsigned":
 			bh = "UNSIGNED-PAYLOAD"
+		case "header": // the client announces the payload hash in a header and signs that value (as signer.Sign does)
+			for _, h := range r.Headers {
+				if strings.EqualFold(h[0], l.ContentSHA256) {
+					bh = h[1]
+					break
+				}
+			}
 		}
 		_, sts := c06Canon(view, l, p, bh)
 		tag := c06Tag(l, p, pl.Secret, sts, nil)
@@ -671,9 +678,12 @@ func c06AttachSig(r *vfRand, in *c06In, focus, forceQuery, adv bool) int {
 			}
 		}
 	}
-	variant := r.Intn(34)
+	variant := r.Intn(42)
 	if adv && r.Chance(1, 2) {
-		variant = 8 + r.Intn(2)
+		variant = r.PickInt(8, 9, 34, 35, 36, 37, 38, 39, 40)
+	}
+	if variant >= 34 { // requests that carry the precomputed payload hash header
+		return c06SigHashHeader(r, in, cfg, pl, variant-34)
 	}
 	switch variant {
 	case 0, 1, 2, 3:
@@ -838,6 +848,79 @@ func c06AttachSig(r *vfRand, in *c06In, focus, forceQuery, adv bool) int {
 	}
 }
 
+// c06SigHashHeader: the client sends <literal.ContentSHA256> (X-Me-Content-Sha256): right value, stale
+// value or the UNSIGNED-PAYLOAD marker, listed among the signed headers or not; then the body or the
+// header is changed. During verification only the forwarded body counts.
+func c06SigHashHeader(r *vfRand, in *c06In, cfg *c06SigCfg, pl *c06SigPlan, variant int) int {
+	l := cfg.lit()
+	body := r.PickStr(c06Bodies...)
+	if r.Chance(1, 5) {
+		body = ""
+	}
+	in.Req.Body = c06Hex(body)
+	if body != "" && in.Req.Method == "GET" {
+		in.Req.Method = "POST"
+	}
+	name := l.ContentSHA256
+	if r.Chance(1, 3) {
+		name = strings.ToLower(name)
+	}
+	signedHdr := r.Chance(1, 2)
+	if signedHdr {
+		pl.Signed = append(pl.Signed, strings.ToLower(l.ContentSHA256))
+	}
+	pl.BodyAs = "header"
+	cfg.ExcludeBody = false
+	val := c06ShaHex(body)
+	other := func() string { return c06Hex(r.PickStr("tampered", body+"x", "{}")) }
+	mut := func(m c06Mut) { in.Muts = append(in.Muts, m) }
+	switch variant {
+	case 0: // announced hash is right, nothing changed
+		in.Req.Headers = append(in.Req.Headers, [2]string{name, val})
+		return 40
+	case 1: // body replaced, announced hash kept
+		in.Req.Headers = append(in.Req.Headers, [2]string{name, val})
+		mut(c06Mut{Op: "body", A: other()})
+		return 41
+	case 2: // body removed, announced hash kept
+		if body == "" {
+			in.Req.Body = c06Hex("to be removed")
+			val = c06ShaHex("to be removed")
+		}
+		in.Req.Headers = append(in.Req.Headers, [2]string{name, val})
+		mut(c06Mut{Op: "body", A: ""})
+		return 41
+	case 3: // stale announced hash from the start (the client signed the announced value)
+		in.Req.Headers = append(in.Req.Headers, [2]string{name, c06ShaHex(body + "-old")})
+		return 42
+	case 4: // the UNSIGNED-PAYLOAD marker although the verifier covers the body
+		in.Req.Headers = append(in.Req.Headers, [2]string{name, "UNSIGNED-PAYLOAD"})
+		if r.Chance(1, 2) {
+			mut(c06Mut{Op: "body", A: other()})
+		}
+		return 43
+	case 5: // announced hash changed after signing: matters only when the header is signed
+		in.Req.Headers = append(in.Req.Headers, [2]string{name, val})
+		mut(c06Mut{Op: "hset", A: l.ContentSHA256, B: c06ShaHex("something else")})
+		return 44
+	case 6: // header added by a third party to a request signed without it, body swapped
+		pl.BodyAs = "actual"
+		if signedHdr {
+			pl.Signed = pl.Signed[:len(pl.Signed)-1]
+		}
+		mut(c06Mut{Op: "hadd", A: name, B: val})
+		mut(c06Mut{Op: "body", A: other()})
+		return 45
+	default: // excludeBody configured: marker or hash announced, body free
+		cfg.ExcludeBody = true
+		in.Req.Headers = append(in.Req.Headers, [2]string{name, "UNSIGNED-PAYLOAD"})
+		if r.Chance(1, 2) {
+			mut(c06Mut{Op: "body", A: other()})
+		}
+		return 46
+	}
+}
+
 func c06GenCase(r *vfRand, adv bool) c06In {
 	in := c06In{JNow: 1700000000 + int64(r.Intn(1000000))}
 	focus := r.PickStr("sig", "sig", "sig", "sig", "jwt", "jwt", "basic", "basic", "headers")
@@ -935,6 +1018,35 @@ func c06Enum(step int) []c06In {
 				tok := c06Issue("HS256", cfg.JWT.Secret, `{"alg":"HS256","typ":"JWT"}`, fmt.Sprintf(`{"sub":"alice","%s":%s}`, name, lit))
 				out = append(out, c06In{Cfg: cfg, JNow: now, Kind: 69, Note: name + "=" + lit,
 					Req: c06Req{Method: "GET", Path: "/", Host: "example.com", Headers: [][2]string{{"Authorization", "Bearer " + tok}}}})
+			}
+		}
+	}
+	// signature with the announced payload hash header (always, not sampled)
+	for _, mode := range []string{"header", "query"} {
+		for _, signedHdr := range []bool{true, false} {
+			for vi, variant := range []struct {
+				val  string
+				muts []c06Mut
+			}{
+				{c06ShaHex("hello"), nil},
+				{c06ShaHex("hello"), []c06Mut{{Op: "body", A: c06Hex("HELLO")}}},
+				{c06ShaHex("hello"), []c06Mut{{Op: "body", A: ""}}},
+				{c06ShaHex("other"), nil},
+				{"UNSIGNED-PAYLOAD", nil},
+				{"UNSIGNED-PAYLOAD", []c06Mut{{Op: "body", A: c06Hex("HELLO")}}},
+				{c06ShaHex("hello"), []c06Mut{{Op: "hset", A: "X-Me-Content-Sha256", B: c06ShaHex("zzz")}}},
+			} {
+				pl := c06SigPlan{Mode: mode, KeyID: "AKID", Secret: "SECRET", AgeS: 2, Expires: 300, Signed: []string{"host"}, BodyAs: "header"}
+				if signedHdr {
+					pl.Signed = append(pl.Signed, "x-me-content-sha256")
+				}
+				if mode == "header" {
+					pl.Signed = append(pl.Signed, "x-me-date")
+				}
+				out = append(out, c06In{Cfg: c06Cfg{Sig: &c06SigCfg{Keys: [][2]string{{"AKID", "SECRET"}}, TTL: "10m"}},
+					Req: c06Req{Method: "POST", Path: "/upload", Host: "example.com", Body: c06Hex("hello"),
+						Headers: [][2]string{{"X-Me-Content-Sha256", variant.val}}},
+					Plan: &pl, Muts: variant.muts, JNow: 1700000000, Kind: 40 + vi, Note: "announced payload hash"})
 			}
 		}
 	}
